@@ -12,8 +12,9 @@ def std_sources(tier, n_quick, n_thorough, dialects=None):
     """The standard families every trace-based check validates: acceptance corpus, limit / look-ahead / state-leaving documents, generated
     English documents, noisy mutations of them, and generated documents in other dialects (by header and as the matcher's default)."""
     n = n_quick if tier == "quick" else n_thorough
+    import keywords as K
     return (E.src_corpus() + E.src_limits() + E.src_generated(n, SEED, dialects) + E.src_noisy(n, SEED)
-            + (E.src_generated(max(20, n // 6), SEED + 11, ALL_PURPOSE_DIALECTS) if dialects is None else []))
+            + (E.src_generated(max(20, n // 6), SEED + 11, ALL_PURPOSE_DIALECTS) + K.odd_cases() if dialects is None else []))
 
 
 def c03(tier, rep):
@@ -308,6 +309,8 @@ def _compile_family(tier, rep, inv):
                            (PFX_TAGS_AFTER_TABLE, 2), (PFX_CELLLESS, 2), (PFX_TAG_PLACEHOLDER, 2)],
            invariants=[inv], label="struct")
     E.traces(rep, E.record_all(std_sources(tier, 300, 3000) + E.src_generated(60 if q else 1000, SEED + 1, MIXED_CASE_DIALECTS)), "corpus+gen+noisy+dialects")
+    # the same with the id counter well past one digit when the document starts (a document in the middle of a stream)
+    E.traces(rep, E.record_all(E.src_corpus() + [x for x in E.src_limits() if not x[0].startswith("count:") or "outline" in x[0]] + E.src_generated(60 if q else 600, SEED + 8), nid0=95), "ids-from-95")
     E.many_uses_pass(rep, 2500 if tier == "quick" else 20000)
     E.ast_variants_pass(rep, E.src_corpus() + E.src_limits() + E.src_generated(60 if q else 600, SEED + 6))
     E.compiler_reuse_pass(rep, std_sources(tier, 150, 1500))
@@ -361,7 +364,14 @@ def _stream_runs(tier, rep, n_gen):
 
 def _stream_part(tier, rep, own):
     import stream as S, tempfile, shutil, os, json
-    streams, bad, res = S.model_check_and_replay(2 if tier == "quick" else 3)
+    streams, bad, res = S.model_check_and_replay(2, max_changes=1)
+    if tier == "thorough":      # longer sequences under fixed options (with a change of options the number of streams grows 15-fold)
+        s3, b3, r3 = S.model_check_and_replay(3, max_changes=0)
+        rep.add_tlc("MC_Stream[3 sources, fixed options]", r3, f"{len(s3)} streams replayed through GherkinEvents.enum")
+        streams, bad = streams + s3, bad + b3
+        for inv in sorted(set(r3.invariant_violations)) + [e for e in r3.errors if "ropert" in e]:
+            if own(inv):
+                rep.violation({"kind": "spec-invariant", "invariant": inv}, {"engine": "MC_Stream", "what": f"{inv} violated", "tlc_tail": r3.out[-3000:]})
     rep.add_tlc("MC_Stream", res, f"{len(streams)} streams (sequences of pool sources x 8 option sets x one change of options between two sources) replayed through GherkinEvents.enum; "
                 "Inv_C17_Order/Options/Uri/Rejected, Inv_C11_Unique/Dense, Act_Monotone")
     rep.traces += len(streams)
@@ -416,8 +426,10 @@ def c17(tier, rep):
     try:
         files = []
         odd = [(nm, f"Feature: {nm}\n  Scenario: s\n    Given x\n") for nm in ("z[1].feature", "z1.feature", "what?.feature", "whatX.feature", "st*r.feature", "star.feature", "a b.feature", "-x.feature"[1:])]
-        for k, (u, data) in enumerate(S.POOL[:4] + [("crlf.feature", "Feature: c\r\n  Scenario: s\r\n    Given x\r\n"), S.POOL[5]] + odd):
-            p = os.path.join(d, f"{k}-{u}" if k < 6 else u)
+        base = S.POOL[:4] + [("crlf.feature", "Feature: c\r\n  Scenario: s\r\n    Given x\r\n"), S.POOL[5], ("bom.feature", "\ufeffFeature: b\n  Scenario: s\n"), ("bom-comment.feature", "\ufeff# c\nFeature: b\n"),
+                            ("lone-cr.feature", "Feature: a\rb\n  Scenario: s\n    Given x\ry\n")]
+        for k, (u, data) in enumerate(base + odd):
+            p = os.path.join(d, f"{k}-{u}" if k < len(base) else u)
             with open(p, "w", encoding="utf8", newline="") as fh:
                 fh.write(data)
             files.append((p, data))
@@ -765,7 +777,7 @@ def c13(tier, rep):
                          "replayed; plus menu sequences with rejected outcomes and corpus/generated traces")
     q = tier == "quick"
     E.grow(rep, M.DOCSTRING, [([1, 2, 3, 4], 3 if q else 4), ([1, 2, 3, 5], 3 if q else 4), ([1, 2, 3, 6], 2 if q else 3), ([1, 2, 3, 7], 2 if q else 3),
-                              ([1, 18, 3, 4], 2), ([1, 19, 3, 5], 2), ([1, 21, 18, 3, 4], 2), ([1, 2, 3, 7, 17, 7, 3, 4], 2), ([1, 2, 3, 25], 2), ([1, 2, 3, 26], 2)],
+                              ([1, 18, 3, 4], 2), ([1, 19, 3, 5], 2), ([1, 21, 18, 3, 4], 2), ([1, 2, 3, 7, 17, 7, 3, 4], 2), ([1, 2, 3, 25], 2), ([1, 2, 3, 26], 2), ([1, 2, 3, 27], 2)],
            invariants=["Inv_C13"], label="docstring", no_free_text=False)
     E.menu(rep, M.DOCSTRING[:15], 3 if q else 4, max_errs=2, invariants=["Inv_C13"], label="docstring-any")
     E.reuse_pass(rep, E.src_limits() + E.src_corpus() + E.src_limits(), "reuse")
